@@ -88,9 +88,24 @@ def _host_fill(rep, mod, fns):
             arg = unparse(c.args[0]).replace(' ', '')
             tgt = unparse(loop.target).replace(' ', '').strip('()')
             if 'atomindices' in it and arg.strip('()') == tgt:
-                conds = {x for x in conditions_at(fn, c)}
-                extra = [x for x in conds if x.replace(' ', '') not in ('not(c==self.chem)', 'c!=self.chem', 'not(%s==self.chem)' % tgt.split(',')[0],
-                                                                        '%s!=self.chem' % tgt.split(',')[0])]
+                tnames = {x.id for x in ast.walk(loop.target) if isinstance(x, ast.Name)}
+
+                def _own_sublattice_skip(text):
+                    """`<the loop's chemistry> != self.chem` (also spelled not ... == ...): the interstitial's own sublattice"""
+                    e = ast.parse(text, mode='eval').body
+                    neg = False
+                    while isinstance(e, ast.UnaryOp) and isinstance(e.op, ast.Not):
+                        e, neg = e.operand, not neg
+                    if not (isinstance(e, ast.Compare) and len(e.ops) == 1 and isinstance(e.ops[0], (ast.Eq, ast.NotEq))):
+                        return False
+                    sides = [unparse(e.left), unparse(e.comparators[0])]
+                    if 'self.chem' not in sides:
+                        return False
+                    other = e.comparators[0] if sides[0] == 'self.chem' else e.left
+                    if not {x.id for x in ast.walk(other) if isinstance(x, ast.Name)} <= tnames:
+                        return False
+                    return neg != isinstance(e.ops[0], ast.NotEq)
+                extra = [x for x in conditions_at(fn, c) if not (q == 'Interstitial' and _own_sublattice_skip(x))]
                 ok = not extra
                 rep.ob('host-fill-complete', mod, c, '%s: for %s in %s: %s' % (qual, tgt, it, unparse(c)[:60]), ok,
                        '' if ok else 'the fill is skipped under %s: host atoms are missing from every generated cell' % '; '.join(extra),
@@ -270,4 +285,13 @@ BREAKERS += [
      "            for s in (super1, super0):\n                for k, v in superdict['states'].items():\n                    # attempt the mapping\n                    g, mapping = v.equivalencemap(s)", 'mapping-search'),
     (OC, "                        g, mapping = v.equivalencemap(s)", "                        g, mapping = v.equivalencemap(super0)", 'mapping-search'),
 ]
-NEUTRALS = []
+BREAKERS += [
+    (OC, "        for (c, i) in self.crys.atomindices:\n            if c == self.chem: continue\n            basesupercell.fillperiodic((c, i), Wyckoff=False)  # for efficiency",
+     "        for c in range(self.crys.Nchem):\n            if c == self.chem: continue\n            basesupercell.fillperiodic((c, 0))", 'host-fill-complete'),
+    (OC, "        for (c, i) in self.crys.atomindices:\n            if c == self.chem: continue\n            basesupercell.fillperiodic((c, i), Wyckoff=False)  # for efficiency",
+     "        for (c, i) in self.crys.atomindices:\n            if c == self.chem or i > 0: continue\n            basesupercell.fillperiodic((c, i), Wyckoff=False)  # for efficiency", 'host-fill-complete'),
+]
+NEUTRALS = [
+    (OC, "        for (c, i) in self.crys.atomindices:\n            if c == self.chem: continue\n            basesupercell.fillperiodic((c, i), Wyckoff=False)  # for efficiency",
+     "        for ci in self.crys.atomindices:\n            if ci[0] != self.chem:\n                basesupercell.fillperiodic(ci, Wyckoff=False)"),
+]
